@@ -511,7 +511,7 @@ def main(prop):
     results = []
     tw = [0, 0]
     encn, encbad = 0, []
-    stats = {'queries': 0, 'unsat': 0, 'sat': 0, 'unknown': 0, 'solver_s': 0.0}
+    stats = dict.fromkeys(zq.STATS, 0)
     for p in parts:
         results += p['results']
         tw[0] += p['twins'][0]
